@@ -2,6 +2,6 @@
 # runs every registered check (quick tier) on the current /repo tree; prints one line per check
 cd /verif
 for id in $(bin/verif list | awk '{print $1}' | sort); do
-  s=$(date +%s); out=$(timeout 1800 bin/verif check $id --tier ${TIER:-quick} 2>&1); rc=$?
+  s=$(date +%s); out=$(timeout ${TMO:-1800} bin/verif check $id --tier ${TIER:-quick} 2>&1); rc=$?
   echo "$id exit=$rc $(($(date +%s)-s))s $(echo "$out" | grep -c '^KNOWN-FINDING') known $(echo "$out" | grep -m1 '^BROKEN\|^VIOLATION' | cut -c1-200)"
 done
